@@ -414,7 +414,19 @@ def _apply(via, kspec, sigs):
         read = lambda: {"a": tr.getAnalyticalFeature("a")}
     elif via in ("seq_x", "seq_y", "seq_z", "seq_xyz"):
         dim = list(via[4:])
-        r = M.call(filter_seq, tr, karg, dim)
+        if via == "seq_xyz" and len(k) % 4 == 3:
+            # degenerate call first: the same request on a track whose heights are all undefined (every window of z
+            # has zero valid weight) cannot be honoured; what it raises is not judged.  The valid request below then
+            # relies on the DEFAULT dimensions (x, y, z), a list owned by the library.
+            bad = gen.make_track([(float(i), 2.0 * i, float("nan")) for i in range(len(k) + 3)])
+            M.call(filter_seq, bad, karg)
+            M.CTX.count("degenerate_filter_request_before_valid_one")
+            r = M.call(filter_seq, tr, karg)
+        elif via == "seq_xyz" and len(k) % 4 == 1:
+            from tracklib.algo.filtering import FILTER_XYZ
+            r = M.call(filter_seq, tr, karg, FILTER_XYZ)
+        else:
+            r = M.call(filter_seq, tr, karg, dim)
         read = lambda: {c: {"x": tr.getX, "y": tr.getY, "z": tr.getZ}[c]() for c in dim}
     elif via == "smooth":
         r = M.call(tr.smooth, kspec["width"])
